@@ -254,6 +254,12 @@ func analyzeLoops(fn *ssa.Function, decl *ast.FuncDecl) *LoopInfo {
 				if _, isDbg := ins.(*ssa.DebugRef); isDbg {
 					continue
 				}
+				if _, isPhi := ins.(*ssa.Phi); isPhi {
+					continue
+				}
+				if decl != nil && decl.Body != nil && (ins.Pos() < decl.Body.Lbrace || ins.Pos() > decl.Body.Rbrace) {
+					continue
+				}
 				if p := ins.Pos(); p.IsValid() && (l.MinPos == token.NoPos || p < l.MinPos) {
 					l.MinPos = p
 				}
